@@ -1,9 +1,10 @@
-use rooc::*;
 use indexmap::IndexMap;
+use rooc::{RoocParser, Linearizer};
 fn main() {
-    for name in ["trueish", "minx", "asb", "forz", "inx", "andy", "orb", "notx", "xorz", "iffy", "impliesq", "maxi", "letter", "wherever", "defined", "solver", "falsey", "a"] {
-        let src = format!("min {name} + 1\ns.t.\n    {name} >= 0\ndefine\n    {name} as Boolean");
-        let r = RoocParser::new(src).parse_and_transform(vec![], &IndexMap::new());
-        println!("{name}: {}", match r { Ok(m) => format!("ok {}", m.objective().rhs), Err(e) => format!("ERR {}", e.lines().nth(1).unwrap_or("").trim().chars().take(60).collect::<String>()) });
+    let src = std::env::args().nth(1).unwrap().replace("\\n", "\n");
+    let p = RoocParser::new(src.clone());
+    match p.parse_and_transform(vec![], &IndexMap::new()) {
+        Ok(m) => { println!("MODEL:\n{}\n{:?}", m, m.objective().rhs); match Linearizer::linearize(m) { Ok(l) => println!("LINEAR:\n{}", l), Err(e) => println!("LINERR {}", e) } }
+        Err(e) => println!("ERR {}", e),
     }
 }
